@@ -143,6 +143,17 @@ def sweep_worker(k, rounds):
     return p.d
 
 
+# shapes of listed findings (see known_findings.json); judged every run, matched by signature prefix
+FINDING_SHAPES = {
+    "short-circuit": ["{ int32_t k = 0; if (RsV && k++) { RdV = 1; } RxV = k; }", "{ int32_t k = 0; if (RsV || k++) { RdV = 1; } RxV = k; }",
+                      "{ int32_t i = RsV; RdV = ((i > 100) && (i++ > 3)); ReV = i; }"],
+    "hybrid-in-for-condition": ["{ int32_t i = RsV; int32_t x = 0; for (i = 0; i++ < 3; x = x) { x = x + i; } RdV = x; }"],
+    "composite-unused-expression-statement": ["{ int32_t i = RsV; int32_t j = 1; i++ + j++; RdV = i + j; }",
+                                              "{ int32_t i = RsV; -i++; RdV = i; }"],
+    "statement-expression-value-is-hybrid": ["{ int32_t i = RsV; int32_t a = ({ i = 3; i++; }); RdV = a * 100 + i; }"],
+}
+
+
 def run_check(ctx):
     ctx.rule = ("Hypothesis programs with 0..4 hybrids (postfix ++/--, sub-routine calls, statement-expressions) in initialisers, "
                 "assignments, if conditions, loop steps, call arguments, store operands x generated states; non-trivial = distinct "
@@ -153,6 +164,7 @@ def run_check(ctx):
     n, ns = (12000, 8) if ctx.tier == "thorough" else (560, 5)
     progcheck.run_gen(ctx, "C06", BASE | enable, n, ns, depth=2, nest=2, lo=1, hi=4,
                       nontrivial=_nontrivial, classify=_classify, native_all=(ctx.tier == "thorough"))
+    progcheck.judge_shapes(ctx, "C06", FINDING_SHAPES)
     rounds = 400 if ctx.tier == "thorough" else 60
     run.run_sharded(ctx, sweep_worker, [(k, rounds) for k in range(len(SWEEP_PROGRAMS))], procs=3)
     ctx.extra["const_arm_templates"] = len(CONST_ARM_TEMPLATES)
